@@ -239,6 +239,7 @@ def main() -> int:
     for vrec in merged["viol"]:
         groups.setdefault((vrec["rule"], vrec["key"]), []).append(vrec)
     reported = 0
+    unreproduced: list[str] = []
     known_hit: dict[str, dict] = {}
     exit_code = 0
     viol_lines = []
@@ -267,11 +268,14 @@ def main() -> int:
                 for i in range(rec["chunk_start"], idx)
             ]
             if not fails(prelude + [plan]):
-                print(
-                    f"HARNESS-ERROR property={prop} violation {rule}/{key} at index {idx} does not reproduce in a "
-                    f"fresh process even with its chunk prelude ({len(prelude)} runs)"
+                # depends on something outside the plans (in practice: which memory addresses
+                # the allocator hands out).  Never reported as a VIOLATION - a violation is
+                # only what replays.  Other groups of this run are still examined; if none
+                # of them can be reported either, the run ends as a harness error (exit 3).
+                unreproduced.append(
+                    f"violation {rule}/{key} at index {idx} does not reproduce in a fresh process even with its chunk prelude ({len(prelude)} runs)"
                 )
-                return 3
+                continue
             # ddmin on the prelude
             chunk = max(1, len(prelude) // 2)
             t_end = time.time() + 60
@@ -318,11 +322,11 @@ def main() -> int:
         rc1, d1 = fresh_replay(path, prop)
         rc2, d2 = fresh_replay(path, prop)
         if rc1 != 1 or rc2 != 1 or d1 != d2 or d1 != res["digest"]:
-            print(
-                f"HARNESS-ERROR property={prop} violation {rule}/{key} did not replay deterministically "
+            unreproduced.append(
+                f"violation {rule}/{key} did not replay deterministically "
                 f"(rc={rc1},{rc2} digests={d1[:12]},{d2[:12]},{res['digest'][:12]}) file={path}"
             )
-            return 3
+            continue
         print(f"  {rule} [{key}] x{merged['viol_count'][(rule, key)]}: {msg}")
         line = f"VIOLATION property={prop} replay={path}"
         print(line)
@@ -339,6 +343,13 @@ def main() -> int:
         print(f"VIOLATION property={prop} replay={path}")
         exit_code = 1
         reported += 1
+
+    if unreproduced and exit_code == 0:
+        for u in unreproduced:
+            print(f"HARNESS-ERROR property={prop} {u}")
+        return 3
+    for u in unreproduced:
+        print(f"NOTE property={prop} not reported (no exact replay): {u}")
 
     for kf in known_hit.values():
         print(f"KNOWN-FINDING: property={prop} {kf['what']}")
